@@ -25,6 +25,7 @@ fn main() {
             "f32" => x19b::run(&mut ev, stratum, args.shard, args.shards),
             "i32" => x19c::run(&mut ev, stratum, args.shard, args.shards),
             "i64" => x19d::run(&mut ev, stratum, args.shard, args.shards),
+            "none" => {}
             other => panic!("unknown element type {other}"),
         }
     }
